@@ -106,6 +106,8 @@ BodyClauses ==
    \cup When(~dok \/ E.dend # E.buflen, "body_decode_consumes")
    \* the decoded value knows its version
    \cup When(dok /\ E.decver # E.ver, "body_version_recorded")
+   \* every field the encoder carries in this version (changing it alone changes the bytes) comes back with its value
+   \cup When(dok /\ E.fcar # E.fdec, "body_fields_preserved")
    \* every primitive cell written is read back as a cell of the same kind, width and bytes (multisets)
    \cup When(dok /\ E.tdec # E.treal, "body_decode_tape")
    \* the decoded value re-encodes to the same length, the same cells, and (no Go map iterated) the same bytes
